@@ -1,7 +1,7 @@
 """C20 - ARM/RISC-V build attributes and ARM unwind tables are decoded exactly."""
 from symx.api import H
 from spec import enc, ehabi
-from harness.elfkit import stream_length
+from harness.elfkit import stream_length, elf_object
 
 PROPERTY = 'C20'
 ASSUMPTIONS = [
@@ -244,12 +244,9 @@ def h_attributes(ctx):
     data, want = _gen_section(ctx, arch, cfg['spec'], little)
     image = [0xEE] * pad + data + [0xEE] * 3
     st = ctx.stream(image)
-    structs = S.ELFStructs(little_endian=little, elfclass=32)
-    structs.create_basic_structs()
-    structs.create_advanced_structs(None, 'EM_ARM' if arch == 'arm' else 'EM_RISCV', None)
     hdr = {'sh_offset': pad, 'sh_size': len(data), 'sh_flags': 0, 'sh_type': 'SHT_ARM_ATTRIBUTES', 'sh_addralign': 1}
     cls = SEC.ARMAttributesSection if arch == 'arm' else SEC.RISCVAttributesSection
-    sec = cls(hdr, '.attributes', _Elf(st, structs, little))
+    sec = cls(hdr, '.attributes', elf_object(ctx, st, 32, little, 'EM_ARM' if arch == 'arm' else 'EM_RISCV'))
     subs = ctx.drain(sec.iter_subsections())
     ctx.outcome('ok')
     ctx.check_eq('subsections/count', len(subs), len(want))
@@ -274,6 +271,62 @@ def h_attributes(ctx):
             for a, wa in zip(attrs, ws['attrs']):
                 ctx.check_eq('attribute/%s' % cfg['label'], _attr_view(ctx, arch, a), wa)
     ctx.check_eq('num_subsections', sec.num_subsections, len(want))
+    # the other entry points to the same data: list / count properties and the filtered iterations agree with the plain iteration
+    ctx.check_eq('accessors/subsections', [x['vendor_name'] for x in sec.subsections], [w['vendor'] for w in want])
+    for v in sorted({w['vendor'] for w in want} | {'no-such-vendor'}):
+        ctx.check_eq('accessors/iter_subsections(vendor)', [x.offset for x in sec.iter_subsections(v)], [x.offset for x, w in zip(subs, want) if w['vendor'] == v])
+    for s, w in zip(subs, want):
+        ctx.check_eq('accessors/num_subsubsections', s.num_subsubsections, len(w['subsubs']))
+        lst = s.subsubsections
+        ctx.check_eq('accessors/subsubsections', [_tagnum(ctx, arch, x.header.tag) for x in lst], [ws['scope'] for ws in w['subsubs']])
+        for scope_name, scope in (('TAG_FILE', 1), ('TAG_SECTION', 2), ('TAG_SYMBOL', 3)):
+            ctx.check_eq('accessors/iter_subsubsections(scope)', [x.offset for x in s.iter_subsubsections(scope_name)],
+                         [x.offset for x, ws in zip(lst, w['subsubs']) if ws['scope'] == scope])
+        for ss, ws in zip(lst, w['subsubs']):
+            ctx.check_eq('accessors/num_attributes', ss.num_attributes, len(ws['attrs']) + 1)
+            al = ss.attributes
+            ctx.check('accessors/attributes/header-first', len(al) == len(ws['attrs']) + 1 and al[0] is ss.header)
+            ctx.check_eq('accessors/attributes', [_attr_view(ctx, arch, a) for a in al[1:]], list(ws['attrs']))
+
+
+def h_file_entry_points(ctx):
+    """ELFFile.has_ehabi_info / get_ehabi_infos and the EHABIInfo accessors on a generated ARM executable (the decoding itself is
+    h20_2 / h20_4)"""
+    from harness.elfkit import Image
+    cfg = ctx.cfg
+    little = cfg['little']
+    EF = ctx.lib('elf.elffile')
+    img = Image(32, little, machine=40, e_type=2)
+    img.section('', sh_type=0)
+    k = cfg['tables']
+    offs = []
+    for t in range(k):
+        words = []
+        for i in range(2):
+            words += enc.enc_int(0x10 + 8 * i, 4, little) + enc.enc_int(0x80b0b0b0 if i else 1, 4, little)
+        o = img.blob(words, align=4)
+        offs.append(o)
+        img.section('.ARM.exidx%s' % ('.text.f' if t else ''), sh_type=0x70000001, sh_offset=o, sh_size=16, sh_addr=0x8000 + o, sh_flags=0x82)
+    o = img.blob([0])
+    img.section('.text', sh_type=1, sh_offset=o, sh_size=1)
+    img.add_shstrtab()
+    elf = EF.ELFFile(ctx.stream(img.build()))
+    ctx.outcome('ok')
+    ctx.check_eq('file/has_ehabi_info', bool(elf.has_ehabi_info()), k > 0)
+    infos = elf.get_ehabi_infos()
+    if k == 0:
+        ctx.check('file/get_ehabi_infos/none', infos is None)
+        return
+    ctx.check_eq('file/get_ehabi_infos/count', len(infos), k)
+    for t, inf in enumerate(infos):
+        ctx.check_eq('file/section_name', inf.section_name(), '.ARM.exidx%s' % ('.text.f' if t else ''))
+        ctx.check_eq('file/section_offset', inf.section_offset(), offs[t])
+        ctx.check_eq('file/num_entry', inf.num_entry(), 2)
+        e0, e1 = inf.get_entry(0), inf.get_entry(1)
+        ctx.check_eq('file/entry-kinds', [type(e0).__name__, type(e1).__name__], ['CannotUnwindEHABIEntry', 'EHABIEntry'])
+        ctx.check_eq('file/function_offset', [e0.function_offset, e1.function_offset], [offs[t] + 0x10, offs[t] + 8 + 0x18])
+        ctx.check_eq('file/bytecode', list(e1.bytecode_array), [0xb0, 0xb0, 0xb0])
+        ctx.check_eq('file/mnemonics', [m.mnemonic for m in e1.mnmemonic_array()], ['finish'] * 3)
 
 
 def _attr_specs(tier):
@@ -304,6 +357,9 @@ def _attr_instances(tier):
                 'two-vendors': [dict(vendor='aeabi', subsubs=[ss(1, [u])]), dict(vendor='x', subsubs=[ss(1, [s])])],
                 'three-vendors': [dict(vendor='aeabi', subsubs=[ss(1, [u])]), dict(vendor='vend', subsubs=[ss(1, [s, u])]), dict(vendor='', subsubs=[ss(1, [u])])],
                 'three-subsubs': [dict(vendor='aeabi', subsubs=[ss(1, [u]), ss(2, [u, u], [1]), ss(3, [s], [2])])],
+                # the number and order of vendor subsections is unconstrained: a vendor may occur more than once, scopes may repeat
+                'repeated-vendor': [dict(vendor='aeabi', subsubs=[ss(1, [u])]), dict(vendor='gnu', subsubs=[ss(1, [s])]), dict(vendor='aeabi', subsubs=[ss(1, [s]), ss(1, [u])])],
+                'repeated-scope': [dict(vendor='aeabi', subsubs=[ss(2, [u], [1]), ss(1, [s]), ss(2, [s], [2]), ss(1, [u])])],
                 '2x2': [dict(vendor='a', subsubs=[ss(1, [u]), ss(2, [s], [1])]), dict(vendor='bb', subsubs=[ss(2, [u], []), ss(1, [])])],
             }
             for label, spec in shapes.items():
@@ -368,6 +424,8 @@ HARNESSES = [
     H('h20_2_index_entry', h_index_entry, _index_instances, expect=('corrupt', 'cantunwind', 'compact', 'generic'),
       desc='EHABIInfo.get_entry with word0/word1 and table words symbolic: kind, function offset (prel31), personality, byte-code bytes in order, eh_table_offset',
       bounds={'all': '1-2 index entries, up to 3 table words, section offset 0/8/16, both byte orders'}),
+    H('h20_5_file_entry_points', h_file_entry_points, lambda tier: [dict(little=l, tables=k) for l in (True, False) for k in (0, 1, 2)], expect=('ok',), decoy=-1,
+      desc='ELFFile.has_ehabi_info / get_ehabi_infos over 0-2 exception index sections of a generated ARM executable; section name / offset / entry count accessors, mnemonic list (ground)'),
     H('h20_1_attributes', h_attributes, _attr_instances, decoy='all', expect=('ok',),
       desc='ARM/RISC-V attributes sections: 1-3 vendor subsections x 1-3 sub-subsections x 0-2 attributes of every kind (uleb, NTBS, compatibility, '
            'also-compatible-with, section/symbol number lists); tag within its kind class, values, strings, numbers symbolic',
